@@ -1,18 +1,22 @@
 #!/bin/bash
 # usage: tools/eval_wave.sh Cxx [Cyy ...]  -- runs every /tmp/agent-<P>/m<k> against the quick check of <P>; a change that
-# is missed there is then run against all 20 checks.  One summary line per change on stdout, logs in /tmp/wave-logs/.
+# is missed there is then run against the other checks (CROSS: default = the cheap ones; CROSS=all for all 20).
+# One summary line per change on stdout, logs in /tmp/wave-logs/.  SKIP="C01/m1 C06/m1" skips changes already evaluated.
 mkdir -p /tmp/wave-logs
-ALL=$(for i in $(seq -w 1 20); do echo -n "C$i "; done)
+if [ "${CROSS:-light}" = all ]; then ALL=$(for i in $(seq -w 1 20); do echo -n "C$i "; done)
+else ALL="C01 C02 C05 C08 C10 C11 C13 C14 C16 C17 C18 C20"; fi
 for p in "$@"; do
   for d in /tmp/agent-$p/m[0-9]*; do
     [ -f "$d/patch.diff" ] || continue
     k=$(basename "$d"); log=/tmp/wave-logs/$p-$k.log
+    case " ${SKIP:-} " in *" $p/$k "*) continue;; esac
     /verif/tools/try_mutant.sh "$d" "$p" > "$log" 2>&1
     own=$(grep -c "^check $p: exit=1" "$log")
     pre=$(grep -E "^pytest|^demo|PATCH-DOES" "$log" | tr '\n' ' ')
     if [ "$own" = 1 ]; then echo "$p/$k DETECTED by $p | $pre"; continue; fi
-    /verif/tools/try_mutant.sh "$d" $ALL > "$log.all" 2>&1
+    others=$(echo $ALL | tr ' ' '\n' | grep -v "^$p$" | tr '\n' ' ')
+    /verif/tools/try_mutant.sh "$d" $others > "$log.all" 2>&1
     by=$(grep -E "^check C[0-9]+: exit=1" "$log.all" | sed 's/^check \(C[0-9]*\):.*/\1/' | tr '\n' ',')
-    echo "$p/$k MISSED by $p; others: ${by:-none} | $pre"
+    echo "$p/$k MISSED by $p; others(${CROSS:-light}): ${by:-none} | $pre"
   done
 done
